@@ -126,6 +126,14 @@ def run_contracts(cids, jobs):
         for i, r in zip(again, redo):
             r['retried_with_larger_budget'] = True
             res[i] = r
+        # still shaky (a busy machine): once more, two at a time
+        again2 = [i for i in again if _shaky(res[i])]
+        if again2:
+            redo2 = _pmap(_run_one_slow, [cids[i] for i in again2], min(2, len(again2)), 5 * wall + 300)
+            for i, r in zip(again2, redo2):
+                r['retried_with_larger_budget'] = True
+                if not _shaky(r) or not r.get('error'):
+                    res[i] = r
     return res
 
 
@@ -188,6 +196,53 @@ def engine_crosscheck():
         with open(cache, 'w') as f:
             json.dump(out, f)
     return out
+
+
+def _standin_child(mod, tier, seed, conn, mem_bytes):
+    try:
+        import resource
+        resource.setrlimit(resource.RLIMIT_AS, (mem_bytes, mem_bytes))
+    except Exception:
+        pass
+    try:
+        conn.send(('ok', mod.run(tier=tier, seed=seed)))
+    except MemoryError:
+        conn.send(('err', 'the stand-in ran out of its memory allowance (a simulation that runs away?)'))
+    except BaseException as e:      # noqa
+        conn.send(('err', "%s\n%s" % (e, traceback.format_exc()[-1500:])))
+    finally:
+        conn.close()
+
+
+def run_standin_guarded(mod, tier, seed):
+    """the bounded stand-in in a child process with a wall-time and a memory allowance: code under test that makes a simulation run
+    away must end as a checker error (exit 3), never hang the check or take the machine down"""
+    import multiprocessing as mp
+    wall = float(os.environ.get('PYVC_STANDIN_WALL_S', '900' if tier == 'quick' else '7200'))
+    mem = int(float(os.environ.get('PYVC_STANDIN_MEM_GB', '8')) * 2 ** 30)
+    ctx = mp.get_context('fork')
+    pr, pw = ctx.Pipe(duplex=False)
+    p = ctx.Process(target=_standin_child, args=(mod, tier, seed, pw, mem))
+    p.start()
+    pw.close()
+    t0 = time.time()
+    res = None
+    while True:
+        if pr.poll(0.2):
+            try:
+                res = pr.recv()
+            except (EOFError, OSError):
+                res = ('err', 'the stand-in process died before delivering a result')
+            break
+        if not p.is_alive():
+            res = ('err', 'the stand-in process died (exit code %s)' % p.exitcode)
+            break
+        if time.time() - t0 > wall:
+            p.kill()
+            res = ('err', 'the stand-in did not finish within %d s' % wall)
+            break
+    p.join(5)
+    return (res[1], None) if res[0] == 'ok' else (None, res[1])
 
 
 def scratch_dir():
@@ -354,10 +409,9 @@ def check(pid, tier, seed, args):
             mod = None
         if mod is not None:
             have_standin = True
-            try:
-                standin = mod.run(tier=tier, seed=seed)
-            except Exception as e:
-                errors.append(('standin', "%s\n%s" % (e, traceback.format_exc())))
+            standin, err = run_standin_guarded(mod, tier, seed)
+            if err:
+                errors.append(('standin', err))
         if standin:
             seen_keys = set()
             for k, fail in enumerate(standin.get('failures', [])):
